@@ -282,14 +282,15 @@ def extract_playback_batch(sh, metas, target_dir, logdir, timeout_s, jobs):
     for gi, (cargs, ms) in enumerate(sorted(groups.items())):
         logf = os.path.join(logdir, "playback_%d.log" % gi)
         cmd = ["cargo", "kani", "--target-dir", target_dir, "--features", "decode",
-               "-Z", "unstable-options", "-Z", "stubbing", "--harness-timeout", "%ds" % timeout_s,
+               "-Z", "unstable-options", "-Z", "stubbing", "--harness-timeout", "%ds" % (3 * timeout_s),
                "-Z", "concrete-playback", "--concrete-playback=print", "--exact",
                "--output-format", "terse"]  # (concrete playback is incompatible with --jobs)
         for m in ms:
             cmd += ["--harness", m["fq"]]
         if cargs:
             cmd += ["--cbmc-args"] + cargs.split()
-        run(cmd, sh, logf, timeout=timeout_s * (1 + len(ms)) + 600)
+        # trace generation needs more time and memory than the plain check: no ulimit here
+        run(cmd, sh, logf, timeout=3 * timeout_s * (1 + len(ms)) + 600, limit_mem=False)
         txt = open(logf).read()
         for mm in re.finditer(r"Concrete playback unit test for `([^`]+)`:\s*```\n(.*?)```", txt, re.S):
             fq, body = mm.group(1), mm.group(2)
@@ -323,7 +324,12 @@ def native_replay_batch(sh, reg_by_name, tests_by_harness, logdir):
     # native replay is dev-profile only; release behaviour of a finding is examined by hand.
     for profile in ("dev",):
         logf = os.path.join(logdir, "replay_%s.log" % profile)
-        cmd = ["env", "CARGO_TARGET_DIR=" + os.path.join(CACHE, "playback-target-" + profile)]
+        pbt = os.path.join(CACHE, "playback-target-" + profile)
+        if TD_GROUP:
+            if not os.path.isdir(pbt + "-" + TD_GROUP) and os.path.isdir(pbt):
+                subprocess.run(["cp", "-a", pbt, pbt + "-" + TD_GROUP])
+            pbt = pbt + "-" + TD_GROUP
+        cmd = ["env", "CARGO_TARGET_DIR=" + pbt]
         if profile == "release":
             # `cargo kani playback` has no --release; the release semantics (optimised, no
             # overflow checks, no debug assertions) are selected through profile overrides
@@ -418,10 +424,23 @@ def main():
 
 
 def target_dir_for(group):
-    return os.path.join(CACHE, "kani-target" + ("-" + group if group else ""))
+    """One Kani target dir per property (so checks of different properties can run
+    concurrently); seeded from the base dir warmed by --setup to avoid rebuilding deps."""
+    base = os.path.join(CACHE, "kani-target")
+    if not group:
+        return base
+    d = base + "-" + group
+    if not os.path.isdir(d) and os.path.isdir(base):
+        subprocess.run(["cp", "-a", base, d])
+    return d
+
+
+TD_GROUP = ""
 
 
 def run_property(prop, tier, seed, sel, tmp, logdir, args, t0):
+    global TD_GROUP
+    TD_GROUP = prop
     sh = make_shadow(tmp)
     timeout_s = args.timeout or TIER_TIMEOUT[tier]
     known = load_known()
@@ -437,9 +456,21 @@ def run_property(prop, tier, seed, sel, tmp, logdir, args, t0):
         log("[%s] kani: %d harness(es)%s, per-harness timeout %ds, -j %d" % (
             prop, len(ms), (" cbmc-args=" + cargs) if cargs else "", timeout_s, args.jobs))
         kani_invoke(sh, [m["fq"] for m in ms], out_json, logf, timeout_s, args.jobs,
-                    target_dir_for(""), cbmc_args=cargs.split() if cargs else None)
+                    target_dir_for(TD_GROUP), cbmc_args=cargs.split() if cargs else None)
         r = parse_results(out_json)
         txt = open(logf).read()
+        if r is None and len(ms) > 1 and "panicked at kani-driver" in txt:
+            # a CBMC crash (e.g. out of memory) in one harness makes kani-driver abort the whole
+            # invocation without JSON: fall back to one invocation per harness
+            log("[%s] kani-driver aborted; re-running the %d harnesses one by one" % (prop, len(ms)))
+            r = {}
+            for hi, m1 in enumerate(ms):
+                oj = os.path.join(tmp, "out_%d_%d.json" % (gi, hi))
+                kani_invoke(sh, [m1["fq"]], oj, os.path.join(logdir, "kani_%d_%d.log" % (gi, hi)), timeout_s, 1,
+                            target_dir_for(TD_GROUP), cbmc_args=cargs.split() if cargs else None)
+                r1 = parse_results(oj)
+                if r1:
+                    r.update(r1)
         if r is None or (not r and "error" in txt):
             build_failed = True
             log("[%s] UNDECIDED: cargo kani produced no results (harness does not compile against the current tree?)" % prop)
@@ -468,7 +499,7 @@ def run_property(prop, tier, seed, sel, tmp, logdir, args, t0):
             undecided.append(m["name"])
             records.append(rec)
             continue
-        p = r["props"]
+        p = {k: (v or 0) for k, v in (r["props"] or {}).items()}
         rec.update({"checks_total": p.get("total_properties", 0), "checks_failed": p.get("failed", 0),
                     "checks_unreachable": p.get("unreachable", 0), "checks_undetermined": p.get("undetermined", 0),
                     "covers_satisfied": p.get("satisfied", 0), "covers_unsatisfiable": p.get("unsatisfiable", 0),
@@ -531,12 +562,24 @@ def run_property(prop, tier, seed, sel, tmp, logdir, args, t0):
         records.append(rec)
 
     if candidates:
-        MAX_REPLAY = int(os.environ.get("VERIF_MAX_REPLAY", "6"))
+        MAX_REPLAY = int(os.environ.get("VERIF_MAX_REPLAY", "3"))
         cands = sorted(candidates, key=lambda c: c[1]["duration_s"])
         todo, skipped = cands[:MAX_REPLAY], cands[MAX_REPLAY:]
-        tests_by = extract_playback_batch(sh, [c[0] for c in todo], target_dir_for(""), logdir, timeout_s, args.jobs)
-        reg_by_name = {c[0]["name"]: c[0] for c in todo}
-        rep = native_replay_batch(sh, reg_by_name, tests_by, logdir) if tests_by else {}
+        # one candidate at a time, fastest first; stop at the first reproduced violation
+        # (counterexample extraction costs up to 20x the plain check because of the trace)
+        tests_by, rep = {}, {}
+        done = []
+        for cand in todo:
+            tb = extract_playback_batch(sh, [cand[0]], target_dir_for(TD_GROUP), logdir, timeout_s, args.jobs)
+            done.append(cand)
+            if tb:
+                tests_by.update(tb)
+                rp = native_replay_batch(sh, {cand[0]["name"]: cand[0]}, tb, logdir)
+                rep.update(rp)
+                if any(v.get("dev") for v in rp.get(cand[0]["name"], {}).values()):
+                    break
+        skipped = [c for c in todo if c not in done] + skipped
+        todo = done
         for m, r, rec in todo:
             tests = tests_by.get(m["name"], [])
             if not tests:
@@ -563,10 +606,11 @@ def run_property(prop, tier, seed, sel, tmp, logdir, args, t0):
                 rec["verdict"] = "solver counterexample did NOT reproduce natively (harness/model suspect)"
                 undecided.append(m["name"])
         for m, r, rec in skipped:
-            rec["verdict"] = "failed in the solver; replay skipped (more than %d failing harnesses in this run)" % MAX_REPLAY
-            if any(v for v in violations):
-                pass
-            undecided.append(m["name"])
+            if violations:
+                rec["verdict"] = "failed in the solver; not replayed (a violation of this property is already confirmed in this run)"
+            else:
+                rec["verdict"] = "failed in the solver; replay skipped (more than %d failing harnesses in this run)" % MAX_REPLAY
+                undecided.append(m["name"])
 
     wall = time.time() - t0
     for f, m in known_hits:
